@@ -3,11 +3,12 @@
 # Takes the source change of /tmp/seed/<name> (or /verif/seeded/<name>/patch.diff), applies it to /repo, runs the quick checks, reverts.
 set -u
 name=$1; shift
-if [ -d /tmp/seed/$name ]; then
-  git -C /tmp/seed/$name diff > /tmp/seed/$name.patch
-  patch=/tmp/seed/$name.patch
+root=${SEEDROOT:-/tmp/seed}; store=${STORE:-$name}
+if [ -d $root/$name ] && [ -z "${FROMSTORE:-}" ]; then
+  git -C $root/$name diff > $root/$name.patch
+  patch=$root/$name.patch
 else
-  patch=/verif/seeded/$name/patch.diff
+  patch=/verif/seeded/$store/patch.diff
 fi
 cd /repo
 if [ -n "$(git status --porcelain)" ]; then echo "repo dirty, abort"; exit 3; fi
